@@ -51,7 +51,7 @@ Proof.
   inversion HQ; subst. apply IH; auto.
 Qed.
 
-Definition dflt : actor := new_actor (PDone OGet 0) false 0.
+Definition dflt : actor := new_actor (PDone OGet 0) false CPlain 0.
 
 Section P.
   Variable eqv : N -> N -> bool.
@@ -74,9 +74,10 @@ Section P.
     | WBlocked w u ch => ch < nxt bb /\ (closed bb ch = true \/ u = v) /\ In u (skipn (start x) h) /\ cond w u = VNo
     | WRet w u ENone => In u (skipn (start x) h) /\ cond w u = VOk /\ is_watch w = false
     | WRet w u EValid => u = 0%N /\ exists y, In y (skipn (start x) h) /\ cond w y = VErr
-    | WRet w u ECanceled => u = 0%N /\ (ctxc x = true \/ eclosed x = true)
+    | WRet w u ECanceled => u = 0%N /\ ((ctxc x = true /\ is_deadline (flav x) = false) \/ eclosed x = true)
     | WRet w u EErrCh => u = 0%N /\ esent x = true
     | WRet w u ECb => u = 0%N /\ is_watch w = true
+    | WRet w u EDeadline => u = 0%N /\ ctxc x = true /\ is_deadline (flav x) = true
     | WCb w u => In u (skipn (start x) h) /\ cond w u = VOk /\ is_watch w = true
     | _ => True
     end.
@@ -93,7 +94,7 @@ Section P.
     aok bb' v' (h ++ t) x.
   Proof.
     intros (Hs & Hq & Hp) Hn Hc Ho. split; [rewrite app_length; lia|]. split; [exact Hq|].
-    destruct (pc x) as [o|o r|w|w u ch|w u ch|w u [| | | |]|w u]; auto.
+    destruct (pc x) as [o|o r|w|w u ch|w u ch|w u [| | | | |]|w u]; auto.
     - destruct Hp as (H1 & H2 & H3). split; [lia|]. split; [|now apply in_skipn_app].
       destruct H2 as [H2| ->]; [left; now apply Hc|]. destruct (Ho ch H1) as [H| ->]; auto.
     - destruct Hp as (H1 & H2 & H3 & H4). split; [lia|]. split; [|split; [now apply in_skipn_app | exact H4]].
@@ -114,9 +115,10 @@ Section P.
     | WBlocked w u ch => ch < nxt bb /\ (closed bb ch = true \/ u = v) /\ In u (skipn (start x) h) /\ cond w u = VNo
     | WRet w u ENone => In u (skipn (start x) h) /\ cond w u = VOk /\ is_watch w = false
     | WRet w u EValid => u = 0%N /\ exists y, In y (skipn (start x) h) /\ cond w y = VErr
-    | WRet w u ECanceled => u = 0%N /\ (ctxc x = true \/ eclosed x = true)
+    | WRet w u ECanceled => u = 0%N /\ ((ctxc x = true /\ is_deadline (flav x) = false) \/ eclosed x = true)
     | WRet w u EErrCh => u = 0%N /\ esent x = true
     | WRet w u ECb => u = 0%N /\ is_watch w = true
+    | WRet w u EDeadline => u = 0%N /\ ctxc x = true /\ is_deadline (flav x) = true
     | WCb w u => In u (skipn (start x) h) /\ cond w u = VOk /\ is_watch w = true
     | _ => True
     end -> aok bb v h (set_pc x p).
@@ -169,7 +171,7 @@ Section P.
   Lemma step_inv s e : Inv s -> Inv (step s e).
   Proof.
     intros HI. pose proof HI as (Hwf & (l & Hl) & Ha).
-    destruct e as [o|w hc|a|a|a|a|a|a|a m|a|a cerr]; cbn [Model.step].
+    destruct e as [o|w hc fl|a|a|a|a|a|a|a m|a|a cerr]; cbn [Model.step].
     - (* Call *) apply inv_app; [exact HI|]. split; [now apply vh_len|]. split; [intros []|exact I].
     - apply inv_app; [exact HI|]. split; [now apply vh_len|]. split; [intros []|exact I].
     - (* Sect *)
@@ -222,6 +224,7 @@ Section P.
       destruct (pc x) as [o|o r|w|w u ch|w u ch|w u ek|w u] eqn:Ep; try exact HI.
       destruct (ctxc x) eqn:Ec; [|exact HI].
       rewrite (seta_eq _ _ _ _ G); apply inv_upd_same; auto; apply aok_set_pc; auto.
+      destruct (flav x) eqn:Ef; cbn [ctx_err is_deadline]; auto.
     - (* ErrWake *)
       destruct (nth_error (acts s) a) as [x|] eqn:G; [|exact HI]. pose proof (Ha _ _ G) as Hx.
       destruct (pc x) as [o|o r|w|w u ch|w u ch|w u ek|w u] eqn:Ep; try exact HI.
@@ -237,21 +240,22 @@ Section P.
     - (* CancelCtx *)
       destruct (nth_error (acts s) a) as [x|] eqn:G; [|exact HI]. pose proof (Ha _ _ G) as Hx.
       apply inv_upd_same; auto. destruct Hx as (Hs & Hq & Hp). split; [exact Hs|]. split; [exact Hq|].
-      cbn [pc ctxc eclosed esent start]. destruct (pc x) as [o|o r|w|w u ch|w u ch|w u [| | | |]|w u]; auto.
-      destruct Hp as [Hp _]. split; [exact Hp | now left].
+      cbn [pc ctxc flav eclosed esent start]. destruct (pc x) as [o|o r|w|w u ch|w u ch|w u [| | | | |]|w u]; auto.
+      + destruct Hp as [Hp [[_ Hd]|Hc]]; (split; [exact Hp|]); [left; now split | now right].
+      + destruct Hp as (Hp & _ & Hd). now repeat split.
     - (* ErrSend *)
       destruct (nth_error (acts s) a) as [x|] eqn:G; [|exact HI]. pose proof (Ha _ _ G) as Hx.
       destruct (hasch x && negb (eclosed x)); [|exact HI].
-      apply inv_upd_same; auto. destruct Hx as (Hs & Hq & Hp). split; [exact Hs|]. cbn [pc ctxc eclosed esent start errq].
+      apply inv_upd_same; auto. destruct Hx as (Hs & Hq & Hp). split; [exact Hs|]. cbn [pc ctxc flav eclosed esent start errq].
       split.
       + rewrite in_app_iff. intros [H|[H|[]]]; [rewrite Hq by exact H; reflexivity | subst m; now rewrite orb_true_r].
-      + destruct (pc x) as [o|o r|w|w u ch|w u ch|w u [| | | |]|w u]; auto.
+      + destruct (pc x) as [o|o r|w|w u ch|w u ch|w u [| | | | |]|w u]; auto.
         destruct Hp as [Hp1 Hp2]. split; [exact Hp1 | now rewrite Hp2].
     - (* ErrClose *)
       destruct (nth_error (acts s) a) as [x|] eqn:G; [|exact HI]. pose proof (Ha _ _ G) as Hx.
       destruct (hasch x); [|exact HI].
       apply inv_upd_same; auto. destruct Hx as (Hs & Hq & Hp). split; [exact Hs|]. split; [exact Hq|].
-      cbn [pc ctxc eclosed esent start]. destruct (pc x) as [o|o r|w|w u ch|w u ch|w u [| | | |]|w u]; auto.
+      cbn [pc ctxc flav eclosed esent start]. destruct (pc x) as [o|o r|w|w u ch|w u ch|w u [| | | | |]|w u]; auto.
       destruct Hp as [Hp _]. split; [exact Hp | now right].
     - (* CbRet *)
       destruct (nth_error (acts s) a) as [x|] eqn:G; [|exact HI]. pose proof (Ha _ _ G) as Hx.
@@ -268,7 +272,7 @@ Section P.
   Lemma vh_tracks s e :
     (vh (step s e) = vh s /\ val (step s e) = val s) \/ vh (step s e) = vh s ++ [val (step s e)].
   Proof.
-    destruct e as [o|w hc|a|a|a|a|a|a|a m|a|a cerr]; cbn [Model.step]; try (left; split; reflexivity).
+    destruct e as [o|w hc fl|a|a|a|a|a|a|a m|a|a cerr]; cbn [Model.step]; try (left; split; reflexivity).
     all: destruct (nth_error (acts s) a) as [x|] eqn:G; [|left; split; reflexivity].
     - destruct (pc x) as [o|o r|w|w u ch|w u ch|w u ek|w u] eqn:Ep; try (left; split; reflexivity).
       + destruct o as [|v|[|k|k|]]; try (left; split; reflexivity);
@@ -344,10 +348,11 @@ Section P.
     nth_error (acts s) a = Some x -> pc x = WRet w v e ->
     match e with
     | ENone => True
-    | ECanceled => v = 0%N /\ (ctxc x = true \/ eclosed x = true)
+    | ECanceled => v = 0%N /\ ((ctxc x = true /\ is_deadline (flav x) = false) \/ eclosed x = true)
     | EErrCh => v = 0%N /\ esent x = true
     | EValid => v = 0%N /\ exists y, In y (held s x) /\ cond w y = VErr
     | ECb => v = 0%N /\ is_watch w = true
+    | EDeadline => v = 0%N /\ ctxc x = true /\ is_deadline (flav x) = true
     end.
   Proof.
     cbn. intros G Ep. destruct (run_inv v0 es) as (_ & _ & Ha). destruct (Ha _ _ G) as (_ & _ & Hp).
@@ -402,9 +407,10 @@ Section P.
     let s := run v0 es in
     nth_error (acts s) a = Some x -> pc x = WRet w v e ->
     if is_watch w then v = 0%N /\ match e with
-                                 | ECanceled => ctxc x = true \/ eclosed x = true
+                                 | ECanceled => (ctxc x = true /\ is_deadline (flav x) = false) \/ eclosed x = true
                                  | EErrCh => esent x = true
                                  | ECb => True
+                                 | EDeadline => ctxc x = true /\ is_deadline (flav x) = true
                                  | ENone | EValid => False
                                  end
     else e <> ECb.
@@ -418,6 +424,7 @@ Section P.
       + destruct Hp as (_ & y & _ & H). destruct w as [|old| |p k|cur]; try discriminate.
         rewrite cond_watch in H. now destruct (compare cur y).
       + split; [exact (proj1 Hp) | exact I].
+      + exact Hp.
     - intros ->. destruct Hp as (_ & H). congruence.
   Qed.
 End P.
@@ -463,7 +470,7 @@ Section Lin.
                 | Some x => match pc x with PGate _ => true | _ => false end
                 | None => false
                 end
-    | Call _ | CallWait _ _ => true
+    | Call _ | CallWait _ _ _ => true
     | _ => false
     end.
 
@@ -475,7 +482,7 @@ Section Lin.
   Lemma step_view_other s e : view_step s e = false ->
     val (step s e) = val s /\ lin (step s e) = lin s /\ map opc (acts (step s e)) = map opc (acts s).
   Proof.
-    destruct e as [o|w hc|a|a|a|a|a|a|a m|a|a cerr]; cbn [view_step Model.step]; try discriminate; intros Hw.
+    destruct e as [o|w hc fl|a|a|a|a|a|a|a m|a|a cerr]; cbn [view_step Model.step]; try discriminate; intros Hw.
     all: destruct (nth_error (acts s) a) as [x|] eqn:G; [|auto].
     - destruct (pc x) as [o|o r|w|w u ch|w u ch|w u ek|w u] eqn:Ep; try discriminate; auto.
       destruct (getch (b s)) as [b' ch']. cbn [val lin acts]. view_same G.
@@ -549,7 +556,7 @@ Section Lin.
   Lemma step_linv v0 s e : linv v0 s -> linv v0 (step s e).
   Proof.
     intros HI. unfold linv in *. destruct (view_step s e) eqn:Ev.
-    - destruct e as [o|w hc|a|a|a|a|a|a|a m|a|a cerr]; cbn [view_step] in Ev; try discriminate.
+    - destruct e as [o|w hc fl|a|a|a|a|a|a|a m|a|a cerr]; cbn [view_step] in Ev; try discriminate.
       + cbn [Model.step with_acts val lin acts]. rewrite map_app. exact (linv_app _ _ _ _ (Some o) HI).
       + cbn [Model.step with_acts val lin acts]. rewrite map_app. exact (linv_app _ _ _ _ None HI).
       + destruct (nth_error (acts s) a) as [x|] eqn:G; [|discriminate].
@@ -589,7 +596,7 @@ Section Lin.
     JInv v0 (val s) (map opc (acts s)) -> JInv v0 (val (step s e)) (map opc (acts (step s e))).
   Proof.
     intros Heq He (J1 & J2). destruct (view_step s e) eqn:Ev.
-    - destruct e as [o|w hc|a|a|a|a|a|a|a m|a|a cerr]; cbn [view_step] in Ev; try discriminate.
+    - destruct e as [o|w hc fl|a|a|a|a|a|a|a m|a|a cerr]; cbn [view_step] in Ev; try discriminate.
       + cbn [Model.step with_acts val acts]. rewrite map_app. cbn [map]. unfold opc at 2. cbn [pc new_actor]. split.
         * intros a o' r Hk. apply nth_error_app_inv in Hk as [Hk|Hk]; [eauto|]. inversion Hk; subst o' r.
           cbn [only_incr] in He. destruct o as [|v|[|k|k|]]; try contradiction; auto.
@@ -678,7 +685,7 @@ Definition kind_of (p : apc) : mkind :=
   end.
 
 Definition absA (h : list N) (x : actor) : mactor :=
-  {| mkd := kind_of (pc x); mheld := skipn (start x) h; mcanc := ctxc x; mclosed := eclosed x; msent := esent x |}.
+  {| mkd := kind_of (pc x); mheld := skipn (start x) h; mcanc := ctxc x; mfl := flav x; mclosed := eclosed x; msent := esent x |}.
 Definition absv (s : st) : list mactor := map (absA (vh s)) (acts s).
 
 Definition wake (bb : bc) (x : actor) : actor :=
@@ -743,7 +750,7 @@ Section MS.
     (forall w u ch, pc x = WBlocked w u ch -> closed bb ch = false) ->
     chk_actor eqv v q (absA h x, code x) = [].
   Proof.
-    intros (Hs & Hq & Hp) He. unfold chk_actor, absA, code. cbn [mkd mheld mcanc mclosed msent].
+    intros (Hs & Hq & Hp) He. unfold chk_actor, absA, code. cbn [mkd mheld mcanc mfl mclosed msent].
     destruct (pc x) as [o|o r|w|w u ch|w u ch|w u ek|w u] eqn:Ep; cbn [kind_of]; try reflexivity.
     - replace (st_of 1) with 1%N by reflexivity. cbn [N.eqb Pos.eqb andb app]. now rewrite andb_false_r.
     - replace (st_of 7) with 7%N by reflexivity. cbn [N.eqb Pos.eqb andb app]. now rewrite andb_false_r.
@@ -759,7 +766,7 @@ Section MS.
         { apply existsb_exists. exists u. split; [exact H1 | now rewrite H2]. }
         destruct w; try (rewrite Hm, H2; reflexivity). now rewrite Hx.
       + rewrite st_of_code by reflexivity. cbn [N.eqb Pos.eqb andb app]. rewrite andb_false_r. cbn [app].
-        destruct Hp as (_ & [H|H]); rewrite H; [reflexivity | now rewrite orb_true_r].
+        destruct Hp as (_ & [[H1 H2]|H]); [rewrite H1, H2 | rewrite H, orb_true_r]; reflexivity.
       + rewrite st_of_code by reflexivity. cbn [N.eqb Pos.eqb andb app]. rewrite andb_false_r. cbn [app].
         destruct Hp as (_ & H). now rewrite H.
       + rewrite st_of_code by reflexivity. cbn [N.eqb Pos.eqb andb app]. rewrite andb_false_r. cbn [app].
@@ -768,6 +775,8 @@ Section MS.
         { apply existsb_exists. exists y. split; [exact H1 | now rewrite H2]. }
         now rewrite Hx.
       + rewrite st_of_code by reflexivity. cbn [N.eqb Pos.eqb andb app]. now rewrite andb_false_r.
+      + rewrite st_of_code by reflexivity. cbn [N.eqb Pos.eqb andb app]. rewrite andb_false_r. cbn [app].
+        destruct Hp as (_ & H1 & H2). now rewrite H1, H2.
     - rewrite st_of_code, val_of_code by reflexivity. cbn [N.eqb Pos.eqb andb app]. rewrite andb_false_r. cbn [app].
       destruct Hp as (H1 & H2 & _).
       assert (Hm : memN u (skipn (start x) h) = true).
@@ -785,12 +794,12 @@ Section MS.
 
   (* ---- frames of the model steps ---- *)
   Lemma absA_set_pc h x p : kind_of p = kind_of (pc x) -> absA h (set_pc x p) = absA h x.
-  Proof. intros H. unfold absA. cbn [pc set_pc start ctxc eclosed esent]. now rewrite H. Qed.
+  Proof. intros H. unfold absA. cbn [pc set_pc start ctxc flav eclosed esent]. now rewrite H. Qed.
 
   Lemma step_frame s e : (forall a, e <> Sect a) ->
     b (step s e) = b s /\ val (step s e) = val s /\ vh (step s e) = vh s.
   Proof.
-    intros Hne. destruct e as [o|w hc|a|a|a|a|a|a|a m|a|a cerr]; cbn [Model.step]; try (repeat split; reflexivity);
+    intros Hne. destruct e as [o|w hc fl|a|a|a|a|a|a|a m|a|a cerr]; cbn [Model.step]; try (repeat split; reflexivity);
       [exfalso; now apply (Hne a)| | | | | | | |].
     all: destruct (nth_error (acts s) a) as [x|] eqn:G; [|repeat split; reflexivity].
     - destruct (pc x) as [o|o r|w|w u ch|w u ch|w u ek|w u]; try (repeat split; reflexivity). destruct (cond w u); repeat split; reflexivity.
@@ -809,14 +818,14 @@ Section MS.
 
   Ltac absv_same G :=
     unfold absv; cbn [acts vh with_acts]; rewrite ?(seta_eq _ _ _ _ G);
-    apply (map_set_nth_eq _ _ _ _ _ G); unfold absA; cbn [pc set_pc start ctxc eclosed esent kind_of];
+    apply (map_set_nth_eq _ _ _ _ _ G); unfold absA; cbn [pc set_pc start ctxc flav eclosed esent kind_of];
     repeat match goal with H : pc _ = _ |- _ => rewrite H end; reflexivity.
 
   Lemma step_absv_pc s e :
     match e with Eval _ | Wake _ | CancelWake _ | ErrWake _ => True | _ => False end ->
     absv (step s e) = absv s.
   Proof.
-    destruct e as [o|w hc|a|a|a|a|a|a|a m|a|a cerr]; try contradiction; intros _; cbn [Model.step].
+    destruct e as [o|w hc fl|a|a|a|a|a|a|a m|a|a cerr]; try contradiction; intros _; cbn [Model.step].
     all: destruct (nth_error (acts s) a) as [x|] eqn:G; [|reflexivity].
     all: destruct (pc x) as [o|o r|w|w u ch|w u ch|w u ek|w u] eqn:Ep; try reflexivity.
     - destruct (cond w u); try (unfold ok_pc; destruct w); absv_same G.
@@ -836,9 +845,9 @@ Section MS.
     absv (step s (ErrSend a m)) = if m then upd (absv s) a set_sent else absv s.
   Proof.
     intros G H1 H2. cbn [Model.step]. rewrite G, H1, H2. cbn [andb negb]. unfold absv. cbn [acts vh with_acts]. destruct m.
-    - apply upd_map_set_nth with (x := x); [exact G|]. unfold absA, set_sent. cbn [pc start ctxc eclosed esent mkd mheld mcanc mclosed msent].
+    - apply upd_map_set_nth with (x := x); [exact G|]. unfold absA, set_sent. cbn [pc start ctxc flav eclosed esent mkd mheld mcanc mfl mclosed msent].
       now rewrite orb_true_r, ?H2.
-    - apply (map_set_nth_eq _ _ _ _ _ G). unfold absA. cbn [pc start ctxc eclosed esent]. now rewrite orb_false_r, ?H2.
+    - apply (map_set_nth_eq _ _ _ _ _ G). unfold absA. cbn [pc start ctxc flav eclosed esent]. now rewrite orb_false_r, ?H2.
   Qed.
 
   Lemma step_absv_close s a x : nth_error (acts s) a = Some x -> hasch x = true ->
@@ -859,7 +868,7 @@ Section MS.
               exists x0, nth_error (acts s) k = Some x0 /\ (pc x0 = WBlocked w u ch \/ (e = Eval k /\ pc x0 = WSampled w u ch))).
     { intros a y x G H Hy. apply nth_set_nth_inv in H as [(-> & -> & _)|H]; [|exists x'; auto].
       destruct Hy as [Hy|Hy]; [exists x; split; [exact G | left; congruence] | exfalso; now apply (Hy w u ch)]. }
-    destruct e as [o|w0 hc|a|a|a|a|a|a|a m|a|a cerr]; cbn [Model.step] in Hk.
+    destruct e as [o|w0 hc fl|a|a|a|a|a|a|a m|a|a cerr]; cbn [Model.step] in Hk.
     - cbn [acts with_acts] in Hk. apply nth_error_app_inv in Hk as [Hk| ->]; [exists x'; auto | discriminate].
     - cbn [acts with_acts] in Hk. apply nth_error_app_inv in Hk as [Hk| ->]; [exists x'; auto | discriminate].
     - destruct (nth_error (acts s) a) as [x|] eqn:G; [|exists x'; auto].
@@ -957,7 +966,7 @@ Section MS2.
 
   Lemma absA_add_held h v x : start x < length h -> absA (h ++ [v]) x = add_held v (absA h x).
   Proof.
-    intros H. unfold absA, add_held. cbn [mkd mheld mcanc mclosed msent]. f_equal.
+    intros H. unfold absA, add_held. cbn [mkd mheld mcanc mfl mclosed msent]. f_equal.
     rewrite skipn_app. replace (start x - length h) with 0 by lia. reflexivity.
   Qed.
 
@@ -1000,11 +1009,14 @@ Proof.
   unfold MR. cbn [meq mcur mas mprev eqc ms]. auto.
 Qed.
 
-Lemma absv_call eqv s p hc : Proofs.Inv eqv s ->
-  absv (with_acts s (acts s ++ [new_actor p hc (length (vh s) - 1)])) = absv s ++ [mnew (kind_of p) (val s)].
+Lemma upd_app_last {A} (l : list A) x f : upd (l ++ [x]) (length l) f = l ++ [f x].
+Proof. unfold upd. rewrite nth_error_app_mid. apply set_nth_app_mid. Qed.
+
+Lemma absv_call eqv s p hc fl : Proofs.Inv eqv s ->
+  absv (with_acts s (acts s ++ [new_actor p hc fl (length (vh s) - 1)])) = absv s ++ [mnew (kind_of p) (val s) fl false].
 Proof.
   intros (_ & (l & Hl) & _). unfold absv. cbn [acts vh with_acts]. rewrite map_app. cbn [map]. f_equal. f_equal.
-  unfold absA, mnew. cbn [pc start ctxc eclosed esent new_actor]. rewrite Hl at 1 2. now rewrite skipn_last.
+  unfold absA, mnew. cbn [pc start ctxc flav eclosed esent new_actor]. rewrite Hl at 1 2. now rewrite skipn_last.
 Qed.
 
 Lemma mon_lp_wait m ml a o y w : nth_error ml a = Some y -> mkd y = MKWait w -> mon_lp m ml (Some (HStep a)) o = None.
@@ -1080,10 +1092,10 @@ Lemma absv_cbret eqv s a x w v : Proofs.Inv eqv s -> nth_error (acts s) a = Some
 Proof.
   intros (_ & (l & Hl) & Ha) G Ep. destruct (Ha _ _ G) as (_ & _ & Hp). rewrite Ep in Hp. destruct Hp as (_ & _ & Hw).
   cbn [Model.step]. rewrite G, Ep. unfold absv. cbn [acts vh with_acts]. split.
-  - rewrite (seta_eq _ _ _ _ G). apply (map_set_nth_eq _ _ _ _ _ G). unfold absA. cbn [pc set_pc start ctxc eclosed esent].
+  - rewrite (seta_eq _ _ _ _ G). apply (map_set_nth_eq _ _ _ _ _ G). unfold absA. cbn [pc set_pc start ctxc flav eclosed esent].
     now rewrite Ep.
   - apply upd_map_set_nth with (x := x); [exact G|]. unfold absA, next_round.
-    cbn [pc set_pc_start start ctxc eclosed esent mkd mheld mcanc mclosed msent]. rewrite Ep. cbn [kind_of].
+    cbn [pc set_pc_start start ctxc flav eclosed esent mkd mheld mcanc mfl mclosed msent]. rewrite Ep. cbn [kind_of].
     destruct w as [|old| |p k|cur]; try discriminate. f_equal. rewrite Hl at 1 2. now rewrite skipn_last.
 Qed.
 
@@ -1127,17 +1139,29 @@ Lemma hstep_ev_ok h m ev h' o : HInv h -> MR h m -> hstep_ev h ev = Some (h', o)
 Proof.
   intros HH HR H. pose proof HH as (HI & HE). pose proof HR as (R1 & R2 & R3 & R4).
   unfold hstep_ev in H. cbv zeta in H. set (eqv := eq_of_code (eqc h)) in *. set (s := ms h) in *.
-  destruct ev as [o0|w hc|a|a|a em|a cerr].
+  destruct ev as [o0|w hc fl pre|a|a|a em|a cerr].
   - (* call *) apply some_pair_inj in H as [<- <-].
     apply (hstep_nolp h m (Some (HCall o0))); auto.
     + now apply step_inv.
     + apply step_eager; [discriminate | discriminate | exact HE].
-    + cbn [mon_event]. rewrite R3, R2. symmetry. exact (absv_call eqv s (PGate o0) false HI).
-  - apply some_pair_inj in H as [<- <-].
-    apply (hstep_nolp h m (Some (HWait w hc))); auto.
-    + now apply step_inv.
-    + apply step_eager; [discriminate | discriminate | exact HE].
-    + cbn [mon_event]. rewrite R3, R2. symmetry. exact (absv_call eqv s (WGate w) hc HI).
+    + cbn [mon_event]. rewrite R3, R2. symmetry. exact (absv_call eqv s (PGate o0) false CPlain HI).
+  - (* waiter call; [pre]: its context had ended before *)
+    apply some_pair_inj in H as [<- <-]. set (s1 := step eqv s (CallWait w hc fl)).
+    assert (HI1 : Inv eqv s1) by now apply step_inv.
+    assert (HE1 : Eager s1) by (apply step_eager; [discriminate | discriminate | exact HE]).
+    destruct (step_frame eqv s (CallWait w hc fl)) as (_ & V1 & _); [discriminate|]. fold s1 in V1.
+    assert (A1 : absv s1 = absv s ++ [mnew (MKWait w) (val s) fl false]) by exact (absv_call eqv s (WGate w) hc fl HI).
+    destruct pre.
+    + destruct (step_frame eqv s1 (CancelCtx (length (acts s)))) as (_ & V2 & _); [discriminate|].
+      apply (hstep_nolp h m (Some (HWait w hc fl true))); auto.
+      * now apply step_inv.
+      * apply step_eager; [discriminate | discriminate | exact HE1].
+      * now rewrite V2.
+      * cbn [mon_event]. rewrite R3, R2, step_absv_cancel, A1.
+        replace (length (acts s)) with (length (absv s)) by (unfold absv; apply map_length).
+        now rewrite upd_app_last.
+    + apply (hstep_nolp h m (Some (HWait w hc fl false))); auto.
+      cbn [mon_event]. now rewrite R3, R2, A1.
   - (* step *)
     destruct (nth_error (acts s) a) as [x|] eqn:G; [|discriminate].
     destruct (pc x) as [op|op r|w|w u ch|w u ch|w u ek|w u] eqn:Ep; try discriminate.
